@@ -263,12 +263,27 @@ def scenarios():
 
 
 def has_real(case):
-    return any(m['cls'] in ('SIS', 'RandomNet', 'Deaths') for m in case['mods'])
+    return 'zoo' in case or any(m['cls'] in ('SIS', 'RandomNet', 'Deaths') for m in case['mods'])
+
+
+def zoo_cases():
+    """ Every entry of the shared scenario zoo (harness/zoo.py, impl.build_sim format) as a case of this module: the schedule
+        oracles and the correspondence only look at the built sim (its modules, their clocks, Loop.plan), so they apply to any
+        configuration. `sim` / `mods` are filled so that the bookkeeping of correspond() works unchanged. """
+    from harness import zoo
+    out = []
+    for name, cfg in zoo.configs():
+        out.append(dict(zoo=name, cfg=cfg, sim=dict(unit=cfg.get('unit'), dt=cfg.get('dt'), start=cfg.get('start'), dur=cfg.get('dur')), mods=[],
+                        n_agents=cfg.get('n_agents'), rand_seed=cfg.get('rand_seed')))
+    return out
 
 
 def build(case):
     """ Build (not init) the real sim of a case """
     import starsim as ss
+    if 'zoo' in case:
+        from harness import impl
+        return impl.build_sim(case['cfg'])
     P = probes()
     by = {k: [] for k in CONTAINERS}
     for m in case['mods']:
@@ -383,6 +398,7 @@ def run_recorded(sim, desc):
             return f()
         return w
     cal = [[]]; inst = [[]]
+    desc['rec'] = rec; desc['calendar'] = cal[0]; desc['instant'] = inst[0]     # grow during the run: a run that raises leaves its prefix
     plan['func'] = [wrap(f, t, o, nm) for f, t, o, nm in zip(funcs, times, orders, names)]
     sim.run()
     final = [int(o.t.ti) for o in [sim] + mods]
@@ -600,7 +616,11 @@ def correspond(ctx):
     ncases = ctx.budget(90, 600)
     cases = [gen_case(ctx.rng) for _ in range(ncases)]
     corpus = load_corpus()
-    cases = corpus + scenarios() + cases
+    try:
+        zc = zoo_cases()
+    except Exception as e:
+        ctx.count('zoo_exceptions'); ctx.notes['last_zoo_exception'] = f'zoo_cases: {type(e).__name__}: {e}'; zc = []
+    cases = corpus + scenarios() + zc + cases
     prepared = []
     lines = []
     inst_cases = []
@@ -609,7 +629,10 @@ def correspond(ctx):
             sim, desc = prepare(case)
         except Exception as e:
             ctx.count('rejected_' + type(e).__name__)
+            if 'zoo' in case:
+                ctx.count('zoo_exceptions'); ctx.notes['last_zoo_exception'] = f"{case['zoo']} (correspond, build/init): {type(e).__name__}: {e}"
             continue
+        if 'zoo' in case: ctx.count('zoo_correspond')
         if None in desc['kinds']:
             ctx.broke('correspondence', 'C08.kinds', 'a module of sim.modules is in no known container', data=case)
             continue
@@ -625,7 +648,10 @@ def correspond(ctx):
                 rec, final = run_recorded(sim, desc)
         except Exception as e:
             if has_real(case):      # an exception inside a real module's own step is not a scheduling matter
-                ctx.count('real_module_run_raised_' + type(e).__name__); continue
+                ctx.count('real_module_run_raised_' + type(e).__name__)
+                if 'zoo' in case:
+                    ctx.count('zoo_exceptions'); ctx.notes['last_zoo_exception'] = f"{case['zoo']} (correspond, run): {type(e).__name__}: {e}"
+                continue
             ctx.broke('correspondence', 'C08.run', f'run of an accepted configuration raised {type(e).__name__}: {e}', data=case)
             continue
         prepared.append((case, desc, funcs, rec, final, nplan))
@@ -665,6 +691,7 @@ def correspond(ctx):
         ctx.case(('c08', tuple(desc['kinds']), tuple(map(tuple, desc['tvecs']))), nontrivial,
                  sample=dict(sim=case['sim'], modules=[(m_['cls'], m_['time']) for m_ in case['mods']][:6], funcs=len(funcs), plan=len(rec), separated=sep))
         if div:
+            if 'zoo' in case: div = f"[zoo:{case['zoo']}] {div}"
             ctx.broke('correspondence', 'C08.schedule', f'executed schedule diverges from Model/Loop.lean: {div}', data=dict(case=case, model=ml[:600]))
             break
 
@@ -727,11 +754,12 @@ CONSEQUENCES = {
 STATS = {}
 
 
-def oracle_case(case):
-    """ Run the real code only; return list of failures (signature, what) """
+def oracle_case(case, errs=None):
+    """ Run the real code only; return list of failures (signature, what); None = not a case (why: appended to errs) """
     try:
         sim, desc = prepare(case)
-    except Exception:
+    except Exception as e:
+        if errs is not None: errs.append(f'build/init raised {type(e).__name__}: {e}')
         return None
     fails = []
     mods = desc['mods']
@@ -757,18 +785,25 @@ def oracle_case(case):
     for meth in ('step_die', 'update_results', 'finish_step'):
         for t in desc['tvecs'][0]:
             expected[(0, True, meth, t)] = 0
+    partial = None
     try:
         with warnings.catch_warnings():
             warnings.simplefilter('ignore')
             rec, final = run_recorded(sim, desc)
             reruns = rerun_after_completion(sim, mods)
     except Exception as e:
-        if has_real(case):
-            return None
-        c = cause if 'run-raised' in CONSEQUENCES.get(cause, ()) else 'none'
-        sig = dict(oracle='schedule', cause=c)
-        if c == 'none': sig.update(what='run-raised', exc=type(e).__name__)
-        return [dict(signature=sig, what=f'run of an accepted configuration raised {type(e).__name__}: {e}')]
+        if not has_real(case):
+            c = cause if 'run-raised' in CONSEQUENCES.get(cause, ()) else 'none'
+            sig = dict(oracle='schedule', cause=c)
+            if c == 'none': sig.update(what='run-raised', exc=type(e).__name__)
+            return [dict(signature=sig, what=f'run of an accepted configuration raised {type(e).__name__}: {e}')]
+        # a real module's own step raised: the exception itself is not a scheduling matter, but the calls executed BEFORE it are
+        # still judged (order, phase, clock, own-instant, no call twice); completeness and final clocks are not
+        partial = f'{type(e).__name__}: {e}'
+        rec = list(desc.get('rec') or [])
+        n_ = min(len(rec), len(desc.get('calendar') or []), len(desc.get('instant') or []))
+        rec = rec[:n_]; final = None; reruns = []
+        if errs is not None: errs.append(f'run raised {partial}')
     eps = desc['eps']
     prev_t = None; prev_phase = None; prev_cal = None; prev_lab = None
     checked = unchecked = 0
@@ -822,12 +857,12 @@ def oracle_case(case):
             prev_cal, prev_lab = c, lab
     STATS['instant_checked'] = STATS.get('instant_checked', 0) + checked
     STATS['instant_unchecked'] = STATS.get('instant_unchecked', 0) + unchecked
-    bad = [k for k, n in expected.items() if n != 1]
+    bad = [k for k, n in expected.items() if (n > 1 if partial else n != 1)]
     if bad:
         k = bad[0]
         fails.append(('multiplicity', f'{label(k[0], k[2], "people" if k[1] else None, mods)} at t={k[3] * eps:.6f} executed {expected[k]} times instead of once ({len(bad)} such)'))
     for i, o in enumerate(owners):
-        if final[i] != len(desc['tvecs'][i]) - 1:
+        if final is not None and final[i] != len(desc['tvecs'][i]) - 1:
             fails.append(('final-clock', f'after the run {label(i, "ti", None, mods)} = {final[i]} but the final index is {len(desc["tvecs"][i]) - 1}'))
     for name, clocks in reruns:
         if clocks != final:
@@ -847,7 +882,9 @@ def oracle_case(case):
         note = {'timepoints-closer-than-eps-x-nfuncs': ' (two owners have time points closer than time_eps x number of functions)',
                 'module-names-collide': ' (two modules share a name, or a module is named "people")', 'none': '',
                 'month-sim-mean-month-length': ' (month-unit sim: its own steps follow calendar months, modules of other units or with an own start are placed with 30.4375-day months)'}[c]
-        out.append(dict(signature=sig, what=f'[{what}] {msg}{note}'))
+        out.append(dict(signature=sig, what=f'[{what}] {msg}{note}' + (f' (the run later raised {partial[:120]} inside a module\'s step)' if partial else '')))
+    if partial and not out:
+        return None         # nothing wrong in the executed prefix: a module's own exception, not a scheduling matter
     return out
 
 
@@ -881,7 +918,10 @@ def search(ctx):
             cases.append(d['case'])
     n = ctx.budget(60, 500)
     cases += [gen_case(ctx.rng, force_real=(i % 5 == 0)) for i in range(n)]
+    search_zoo(ctx)
     for case in cases:
+        if 'zoo' in case:       # (a zoo case a broken correspondence pointed at: already run by search_zoo)
+            continue
         fails = oracle_case(case)
         if fails is None:
             ctx.count('oracle_rejected'); continue
@@ -890,6 +930,28 @@ def search(ctx):
             ctx.count('oracle_' + k_, STATS.pop(k_))
         for f in fails:
             ctx.fail(f['signature'], f['what'], dict(kind='case', case=case))
+
+
+def search_zoo(ctx):
+    """ All schedule oracles (exactly once per own time point, time order, phase order, clock = scheduled index, own-instant, calendar
+        order, final clocks also after redundant run calls) over every entry of the shared scenario zoo, on every run """
+    try:
+        zc = zoo_cases()
+    except Exception as e:
+        ctx.count('zoo_exceptions'); ctx.notes['last_zoo_exception'] = f'zoo_cases: {type(e).__name__}: {e}'; return
+    for case in zc:
+        errs = []
+        try:
+            fails = oracle_case(case, errs=errs)
+        except Exception as e:
+            ctx.count('zoo_exceptions'); ctx.notes['last_zoo_exception'] = f"{case['zoo']}: {type(e).__name__}: {e}"; continue
+        if fails is None:       # the entry did not build / init, or a real module's own step raised: not a scheduling matter
+            ctx.count('zoo_exceptions'); ctx.notes['last_zoo_exception'] = f"{case['zoo']}: {errs[0] if errs else 'rejected'}"; continue
+        ctx.count('zoo_runs')
+        for k_ in list(STATS):
+            ctx.count('oracle_' + k_, STATS.pop(k_))
+        for f in fails:
+            ctx.fail(f['signature'], f"[zoo:{case['zoo']}] " + f['what'], dict(kind='case', case=case))
 
 
 def replay(ctx, data):
